@@ -105,6 +105,7 @@ def handle : List String → String
   | ["costf", mode, _, _, _, _] => if costModes.contains mode then "cost" else "bad-op"
   | "httpmap" :: rest => handleMap rest
   | "httphdr" :: rest => handleHdr rest
+  | "httprwm" :: rest => handleRwm rest
   | ["zoo", _, _, _] => "zoo"      -- oracle-only stream (real provisioned server); nothing to model
   | _ => "bad-op"
 
